@@ -39,7 +39,9 @@ META = {
                    "call's queued temporary file (vermouth's writer is a process-wide singleton): known finding F15."),
     'rule': ("cases = program x stage made to raise (every stage function named in the regenerated skeleton) x pre-existing output file "
              "or not, plus success runs with 0-3 existing backups; non-trivial = a crash case with a pre-existing file or a success "
-             "case with a backup; distinct by (program, stage, pre-existing state)"),
+             "case with a backup; distinct by (program, stage, pre-existing state); plus inputs that fail or succeed on their own "
+             "(no injected fault: unknown names, malformed macros, bad connect records, missing files, branched / disconnected / "
+             "cyclic sequences) x output names with several extensions x pre-existing file or not"),
 }
 
 FF = """[ moleculetype ]
@@ -305,6 +307,7 @@ def run(ctx):
     if mism:
         ctx.broken.append('correspondence:programs vs model/Effects.v')
     same_process(ctx)
+    natural_failures(ctx)
 
 
 def same_process(ctx):
@@ -326,6 +329,85 @@ def same_process(ctx):
                       "call's output file", {'same_process': True, 'listing': sorted(after)}, finding='F15')
 
 
+NATURAL_SEQ = [
+    # (label, kwargs): inputs of gen_seq that succeed or fail on their own (no injected fault)
+    ('linear', dict(seq=['A', 'B'], macro_strings=['A:3:1:PEO-1.0', 'B:2:1:PS-1.0'], connects=['0:1:2-0'])),
+    ('branched macro', dict(seq=['A'], macro_strings=['A:3:2:PEO-1.0'], connects=[])),
+    ('two blocks, no connect record (disconnected)', dict(seq=['A', 'B'], macro_strings=['A:3:1:PEO-1.0', 'B:2:1:PS-1.0'], connects=[])),
+    ('ring closed by two connect records', dict(seq=['A', 'B'], macro_strings=['A:3:1:PEO-1.0', 'B:3:1:PS-1.0'], connects=['0:1:2-0', '0:1:0-2'])),
+    ('unknown macro in -seq', dict(seq=['A', 'C'], macro_strings=['A:3:1:PEO-1.0'], connects=['0:1:2-0'])),
+    ('connect record beyond the block', dict(seq=['A', 'B'], macro_strings=['A:3:1:PEO-1.0', 'B:2:1:PS-1.0'], connects=['0:1:7-0'])),
+    ('malformed macro', dict(seq=['A'], macro_strings=['A:3:PEO'], connects=[])),
+    ('modification of a block that does not exist', dict(seq=['A'], macro_strings=['A:3:1:PEO-1.0'], connects=[], modifications=['4:PEOT'])),
+]
+
+
+def natural_failures(ctx):
+    """inputs that fail (or succeed) on their own, for several output names and with / without a file at the output
+    path: a call that raises must leave the output directory exactly as it was; a call that returns must leave a
+    complete file"""
+    import numpy as np
+    import polyply.src.gen_seq as gs
+    import polyply.src.gen_itp as gi
+    import polyply.src.gen_coords as gc
+    rng = ctx.rng
+    runs = []
+    for label, kw in NATURAL_SEQ:
+        for outname in ('out.json', 'seq.txt', 'graph.dat'):
+            runs.append(('gen_seq', label, outname, lambda out, wd, kw=kw: gs.gen_seq(name='s', outpath=out, **kw)))
+    for label, kw in [('unknown residue name', dict(seq=['XYZ:3'])), ('negative count', dict(seq=['PEO:-1'])), ('ok', dict(seq=['PEO:3'])),
+                      ('missing definitions file', dict(seq=['PEO:3'], missing=True))]:
+        for outname in ('out.itp', 'out.top'):
+            def call(out, wd, kw=kw):
+                inp = [pathlib.Path(wd) / 'in' / ('nothere.ff' if kw.get('missing') else 't.ff')]
+                gi.gen_params(name='x', outpath=out, inpath=inp, lib=None, seq=kw['seq'], dsdna=False)
+            runs.append(('gen_params', label, outname, call))
+    for label, top in [('missing include', 'bad_include.top'), ('molecule name without type', 'bad_name.top'), ('ok', 'system.top')]:
+        for outname in ('out.gro', 'out.pdb'):
+            def call(out, wd, top=top):
+                gc.gen_coords(toppath=pathlib.Path(wd) / 'in' / top, outpath=out, name='generated', box=np.array([5.0, 5.0, 5.0]))
+            runs.append(('gen_coords', label, outname, call))
+    for prog, label, outname, call in runs:
+        for pre in (False, True):
+            with systems.Workdir() as wd:
+                prepare(wd, rng)
+                with open(os.path.join(wd, 'in', 'system.top')) as fh:
+                    good = fh.read()
+                with open(os.path.join(wd, 'in', 'bad_include.top'), 'w') as fh:
+                    fh.write('#include "nothere.itp"\n' + good)
+                with open(os.path.join(wd, 'in', 'bad_name.top'), 'w') as fh:
+                    fh.write(good + 'NOSUCH 1\n')
+                outdir = os.path.join(wd, 'out')
+                if pre:
+                    with open(os.path.join(outdir, outname), 'w') as fh:
+                        fh.write('OLD CONTENT')
+                before = listing(outdir)
+                reset_writer()
+                sink = io.StringIO()
+                exc = None
+                try:
+                    with contextlib.redirect_stderr(sink), contextlib.redirect_stdout(sink), systems.watchdog(60):
+                        call(pathlib.Path(outdir) / outname, wd)
+                except BaseException as e:  # noqa
+                    exc = f'{type(e).__name__}: {str(e)[:80]}'
+                after = listing(outdir)
+                reset_writer()
+            ctx.case(('natural', prog, label, outname, pre), nontrivial=exc is not None and pre)
+            ctx.feature('natural_failure' if exc else 'natural_success')
+            rep = {'natural': True, 'program': prog, 'input': label, 'outname': outname, 'pre_existing': pre}
+            if exc is not None and after != before:
+                changed = sorted(k for k in set(before) | set(after) if before.get(k) != after.get(k))
+                ctx.violation('spec', f"{prog} failed on its own input ({label}: {exc}) but the output directory changed: {changed} "
+                              f"(file at the output path before: {'OLD CONTENT' if pre else 'none'}, after: "
+                              f"{repr(after.get(outname, 'none'))[:40]})", rep)
+            if exc is None:
+                new = after.get(outname)
+                if not new or new == 'OLD CONTENT':
+                    ctx.violation('spec', f"{prog} returned normally ({label}) but no complete file is at the output path {outname}", rep)
+                elif prog != 'gen_seq' and pre and 'OLD CONTENT' not in [v for k, v in after.items() if k != outname]:
+                    ctx.violation('spec', f"{prog} returned normally ({label}) but the previous file at {outname} is not kept under a backup name", rep)
+
+
 def search(ctx):
     return
 
@@ -333,6 +415,24 @@ def search(ctx):
 def replay(ctx, data):
     print(json.dumps(data, indent=1, default=str)[:3000])
     import random
+    if data.get('natural'):
+        class N:
+            rng = random.Random(0)
+            violations = []
+
+            def case(self, *a, **k):
+                pass
+
+            def feature(self, *a, **k):
+                pass
+
+            def violation(self, kind, what, rep, finding=None):
+                if all(rep.get(k) == data.get(k) for k in ('program', 'input', 'outname', 'pre_existing')):
+                    self.violations.append(what)
+        n = N()
+        natural_failures(n)
+        print('replay:', n.violations or 'the directory is unchanged / the file is complete')
+        return 1 if n.violations else 0
     if data.get('same_process'):
         class C:
             rng = random.Random(0)
